@@ -282,7 +282,8 @@ claim('C18',
       'semantics; refs/formats.py.',
       'static analysis: piecewise-affine cell analysis of extracted index '
       'expressions (own integer evaluator, no cart data), constant '
-      'evaluation of the memory map, CFG dominance',
+      'evaluation of the memory map, CFG dominance; whole-method evaluation '
+      'on symbolic regions as fallback; cached-region-map rule',
       'DESIGN.md section 4 C18, Appendix A.2')
 
 claim('C17',
@@ -302,7 +303,9 @@ claim('C17',
       'the rule).',
       'static analysis: abstract interpretation (KnownBits-style bit '
       'provenance with truth-table cells, affine index forms, interval + '
-      'constraint domain, path splitting without solver)',
+      'constraint domain, path splitting without solver); whole-method '
+      'evaluation on symbolic memory for sampled addresses when the symbolic '
+      'analysis cannot follow the code',
       'DESIGN.md section 4 C17, Appendix A.2/A.3')
 
 claim('C03',
@@ -320,9 +323,10 @@ claim('C03',
       're-read cart and byte-identity of a rewrite for concrete carts '
       '(follow from the rules modulo bytes.fromhex/format and C06/C15); '
       'carts with non-canonical region sizes.',
-      'static analysis: abstract interpretation to bit/hex-digit layout '
-      'maps, map inversion check, constant evaluation, regex-automaton '
-      'membership',
+      'static analysis: whole-function abstract interpretation of every '
+      'section codec on symbolic memory (from_lines(to_lines(m)) == m), '
+      'path-wise models of the formatter (write trace, reader dispatch, line '
+      'provenance), constant evaluation, regex-automaton membership',
       'DESIGN.md section 4 C03')
 claim('C04',
       'Decides the .p8.png codec structurally for all carts: steganographic '
@@ -335,9 +339,10 @@ claim('C04',
       'Decided: the necessary conditions above. Not decided: that the file '
       'is a valid PNG (pypng), CR/trailing-newline normalisation equalities, '
       '.p8 -> .p8.png -> .p8 for concrete carts, the _update60 suffix.',
-      'static analysis: bit-provenance abstract interpretation, constant '
-      'evaluation of the memory layout, CFG dominance of a raising guard, '
-      'kind (bytes/str) inference at call sites',
+      'static analysis: whole-function abstract interpretation of the pixel '
+      'codec, the image-memory plumbing and the code area (compressor, PNG '
+      'library and files replaced by stand-ins), CFG / path checks for the '
+      'label handling',
       'DESIGN.md section 4 C04')
 claim('C05',
       'Decides the compression codec as arithmetic: encoder and decoder item '
@@ -371,8 +376,10 @@ claim('C16',
       'refs/formats.py (written from the public format description), '
       'bytes.fromhex / format / pypng semantics. Not decided: carts with '
       'truncated sections.',
-      'static analysis: bit-provenance abstract interpretation of each codec '
-      'side vs a reference layout table',
+      'static analysis: whole-function abstract interpretation (constant '
+      'control, bit-provenance data; absint/cx.py) of each codec side and of '
+      'the .p8.png memory plumbing vs a reference layout table; older '
+      'per-loop extractors as fallback',
       'DESIGN.md section 4 C16')
 
 
@@ -434,10 +441,15 @@ def main():
                  'exit 2 + ANALYSIS-ERROR = an anchor vanished or an idiom '
                  'is outside the model (never a silent pass). Known, '
                  'unrepaired defects are listed in known_findings.json. '
-                 'DESIGN.md sections 9-10 describe what was built and how '
-                 'the checks fared on 20 breaking changes and 20 '
-                 'behaviour-preserving refactorings written by independent '
-                 'sub-agents (seeded/).',
+                 'Trust gate: when the modules a check consulted differ '
+                 'from the pinned reference tree by more than 32 statements '
+                 '(pv/churn.py), a VIOLATION of a shape-recognising rule is '
+                 'reported as ANALYSIS-ERROR/UNDECIDED instead; rules '
+                 'decided by whole-function abstract evaluation with a '
+                 'witness stay armed. DESIGN.md sections 9-10 describe what '
+                 'was built and how the checks fared on 40 breaking changes '
+                 'and 40 behaviour-preserving refactorings written by '
+                 'independent sub-agents (seeded/).',
     }
     with open(os.path.join(VERIF, 'MANIFEST.json'), 'w') as fh:
         json.dump(man, fh, indent=1)
